@@ -416,6 +416,24 @@ def run(rep):
                             it = m_.value
                 if isinstance(it, (ast.List, ast.Tuple)):
                     rkeys |= {const_value(x) for x in it.elts}
+        # numbers come back exactly: a value read from the dictionary is not pushed through float() / int() on its way to the
+        # constructor (int64 no-data values beyond 2^53 and the type extremes do not survive a float)
+        kpe = pq.PEval()
+        kpe.b.keep_casts = True
+        lossy = []
+        try:
+            for p_ in kpe.run(fd):
+                pool_ = [v for v in p_.env.values() if isinstance(v, tuple)] + [e.val for e in p_.effects if e.val is not None] + ([p_.value] if isinstance(p_.value, tuple) else [])
+                for x in pq.find(('tuple', tuple(pool_)), lambda y: (pq.call_named(y, "py.float") or pq.call_named(y, "float64")) and len(y[2]) == 1 and
+                                 pq.call_named(y[2][0], "getitem") and y[2][0][2][1][0] == 'sym' and y[2][0][2][1][1].strip("'\"") in ("nodata",)):
+                    lossy.append(_show(x)[:60])
+        except Exception:
+            lossy = None
+        if lossy is None:
+            rep.undecided("R13.b", rel, f"{cls}.from_dict", "no-data value restored without a float conversion", "evaluation failed", line=fd.lineno)
+        else:
+            rep.check(not lossy, "R13.b", rel, f"{cls}.from_dict", "no-data value restored without a float conversion (integers beyond 2^53 survive)",
+                      f"{sorted(set(lossy))[:2]}", line=fd.lineno)
         rep.check(rkeys <= set(wkeys), "R13.b", rel, f"{cls}.from_dict", "keys read are written by to_dict",
                   f"read but not written: {sorted(rkeys - set(wkeys))}", line=fd.lineno)
         rep.check(set(wkeys) <= rkeys, "R13.b", rel, f"{cls}.to_dict", "keys written are restored by from_dict",
